@@ -189,7 +189,7 @@ def run_shard(spec, acc):
     idx = 0
     for si, t, f in work:
         rnd = random.Random(f"{spec['seed']}:C19:{t}")
-        for s in typed_cases(t, spec["maxlen"], rnd, spec["nrand"]):
+        for s in [""] + typed_cases(t, spec["maxlen"], rnd, spec["nrand"]):
             idx += 1
             if idx % nsh != shard:
                 continue
@@ -205,7 +205,7 @@ def run_shard(spec, acc):
             acc.case((t, s), nontrivial=z != "u")
             if o[0] == "other" and z != "u":
                 acc.violation(classify(t, s, z, o), f"{t} field {f.name}: validate_value({s!r}) -> {o}", {"type": t, "field": f.name, "value": s, "zone": z}, cid)
-            elif o[0] == "other" and s != "":
+            elif o[0] == "other":
                 # even in the unspecified zone a rejection must be the library's message error
                 acc.violation(classify(t, s, z, o), f"{t} field {f.name}: validate_value({s!r}) -> {o}", {"type": t, "field": f.name, "value": s, "zone": z}, cid)
             elif z == "accept" and o[0] != "accept":
